@@ -395,11 +395,16 @@ def _norm(value):
 
     np.linalg.norm squares its argument even when it is a plain number, which
     overflows for magnitudes above ~1e154 and underflows to zero below ~1e-162;
-    numbers are therefore measured with abs().
+    numbers are therefore measured with abs(), and arrays are scaled by their
+    largest entry first.
     """
     if isinstance(value, Number):
         return abs(value)
-    return np.linalg.norm(value)
+    value = np.asarray(value)
+    scale = np.max(np.abs(value)) if value.size else 0
+    if scale == 0 or not np.isfinite(scale):
+        return np.linalg.norm(value)
+    return scale * np.linalg.norm(value / scale)
 
 def within_tolerance(x, y, tolerance):
     """
